@@ -239,12 +239,12 @@ MUTATIONS += [
          old="                if kwargs.get(\"resume_from\") is None and \"checkpoint\" in h5_file:", new="                if False and \"checkpoint\" in h5_file:"),
     dict(name="c14-overwrite-keeps-checkpoint", file="aspire.py", checks=["C14"],
          old="                        if \"checkpoint\" in h5_file:\n                            del h5_file[\"checkpoint\"]\n                    elif defaults", new="                        if False:\n                            del h5_file[\"checkpoint\"]\n                    elif defaults"),
-    dict(name="c14-saved-flow-flag-not-reset", file="aspire.py", checks=["C14"],
-         old="                        defaults[\"saved_flow\"] = False", new="                        pass"),
+    # (removed: c14-saved-flow-flag-not-reset - since 2ac6db2 the stored flow is also tied to the fit counter, the flag reset is
+    #  a second guard and dropping it alone changes no behaviour; the failing-file-update sequences of C14 cover the counter)
     dict(name="c14-resume-priming-survives-refit", file="aspire.py", checks=["C14"],
          old="        for name in (\"_resume_from_default\", \"_resume_sampler_type\"):", new="        for name in ():"),
-    dict(name="c14-sampler-type-lost-after-resume", file="aspire.py", checks=["C14"],
-         old="        if saved_sampler_type:\n            # Keep naming", new="        if False:\n            # Keep naming"),
+    # (removed: c14-sampler-type-lost-after-resume - since caa7783 fit() takes the sampler name from the file it rewrites, which
+    #  makes the name remembered at resume time redundant: an equivalent mutant now)
     dict(name="c14-config-not-rewritten", file="aspire.py", checks=["C14"],
          old="                if checkpoint_save_config:\n                    if \"aspire_config\" in h5_file:\n                        del h5_file[\"aspire_config\"]\n                    self.save_config(\n                        h5_file,\n                        include_sampler_config=True,\n                        include_sample_calls=False,\n                    )\n                    saved_config = True",
          new="                if checkpoint_save_config and \"aspire_config\" not in h5_file:\n                    self.save_config(\n                        h5_file,\n                        include_sampler_config=True,\n                        include_sample_calls=False,\n                    )\n                    saved_config = True"),
